@@ -47,7 +47,7 @@ def stage_mc_parser(run, n, alphabet, emit=True, liveness=False, name="mc_parser
 # ------------------------------------------------------------------------------------------------
 # stage: enumerate the same token space through the real parser
 # ------------------------------------------------------------------------------------------------
-def stage_enum(run, n, alphabet, observe=False, trace=False, accepted_only=True, name="enum", random=0, rlen=8, json=False):
+def stage_enum(run, n, alphabet, observe=False, trace=False, accepted_only=True, name="enum", random=0, rlen=8, json=False, df=None):
     outs, traces, argsets = [], [], []
     k = NPROC if not random else 1
     for i in range(k):
@@ -59,6 +59,8 @@ def stage_enum(run, n, alphabet, observe=False, trace=False, accepted_only=True,
             a.append("-observe")
         if json:
             a.append("-json")
+        if df is not None:
+            a += ["-df", df]
         if trace:
             t = os.path.join(run.work, "%s_trace_%d.ndjson" % (name, i))
             a += ["-trace", t]
